@@ -264,6 +264,27 @@ def run(ctx, res):
             res.known("C10-F1", {"before": b, "after": a}, known["C10-F1"]["summary"])
         else:
             res.fail("C10 purity: a raw vDatetime value gains a TZID parameter during to_ical", "vDatetime", observed=a, expected=b)
+    # ---- raw zoned values with parameters of their own: the first and the second serialisation are the same bytes,
+    #      parse back to the zone and carry every parameter
+    for npar in (0, 1, 2, 3):
+        for cls_, dtv in ((vDatetime, datetime(2020, 1, 1, 10, tzinfo=zoneinfo.ZoneInfo("Europe/Berlin"))),
+                          (vDatetime, datetime(2020, 7, 1, 10, tzinfo=zoneinfo.ZoneInfo("America/New_York")))):
+            ev = icalendar.Event()
+            val = cls_(dtv)
+            for i in range(npar):
+                val.params[["X-NOTE", "ALTREP", "X-A"][i]] = ["n", "u", "a"][i]
+            ev["X-WHEN"] = val
+            ev["DTSTART"] = cls_(dtv)
+            ev["DTSTART"].params.update(val.params)
+            first, second = ev.to_ical(), ev.to_ical()
+            res.count(("raw zoned value", npar, str(dtv.tzinfo)), nontrivial=npar > 0)
+            want = "TZID=" + str(dtv.tzinfo)
+            lines = [ln for ln in first.decode().replace("\r\n ", "").split("\r\n") if ln.startswith(("X-WHEN", "DTSTART"))]
+            if first != second or not all(want in ln and all(("%s=%s" % (k, v)) in ln for k, v in val.params.items()
+                                                              if k != "TZID") for ln in lines):
+                res.fail("C10: a raw zoned date-time with parameters of its own serialises differently the first and the "
+                         "second time, or without its zone or a parameter", {"params": npar, "zone": str(dtv.tzinfo)},
+                         observed=[first.decode(), second.decode()])
     # ---- hash seed experiment
     hashes = {}
     for seed in ([0, 1, 2, 3, 4, 5, 6, 7] if ctx.big else [0, 1, 2, 3]):
